@@ -728,7 +728,7 @@ fn cmd_check(args: &[String]) -> i32 {
 		}
 		processed_own += 1;
 		let mbudget = if tier_s == "quick" { 150 } else { 1500 };
-		let is_blocked = vc == "blocked-forever" || vc == "no-return";
+		let is_blocked = vc.ends_with("blocked-forever") || vc.ends_with("no-return");
 		let (mcfg, mops, mv, used) = if is_blocked {
 			// every attempt costs the full detection window and leaks a thread: only the suffix
 			// after the blocking op is dropped
